@@ -192,7 +192,12 @@ func (fr *Frame) bindContractEnv(con *Contract, fn *ssa.Function, args, binds []
 		encFail("contract %s declares %d parameters, call passes %d", con.Key, len(con.Params), len(args)-k)
 	}
 	for j, p := range con.Params {
-		vars[p.Name] = args[k+j]
+		a := args[k+j]
+		// a concrete value boxed into an interface at the call site is seen through when the contract declares the concrete type
+		if a.K == KIface && len(a.Fields) == 1 && (strings.HasPrefix(p.Type, "[]") || strings.HasPrefix(p.Type, "*")) {
+			a = a.Fields[0]
+		}
+		vars[p.Name] = a
 	}
 	for j, f := range con.Free {
 		if j < len(binds) {
@@ -864,6 +869,55 @@ func (fr *Frame) appendBuiltin(ins ssa.Instruction, s, t Val, st *State, reach T
 		// in place: row of s's backing array; otherwise: row of the fresh array
 		nst = fr.wrFrom(nst, st, comp, srt, s.A, ite(inplace, na, oldArr))
 		nst = fr.wrFrom(nst, nst, comp, srt, newRef, ite(inplace, fr.rd(nst, comp, srt, newRef), na))
+	}
+	// Lemmas (logical consequences of the exact model above, stated in the form later reads will take):
+	// the old elements are kept and the appended ones follow.
+	{
+		c.fresh++
+		iv := sym(fmt.Sprintf("i!q%d", c.fresh))
+		lOld, etOld := fr.elemLoc(s, iv)
+		lNew, _ := fr.elemLoc(res, iv)
+		for _, sc := range fr.v.leafComps(etOld) {
+			before := fr.readLeaf(st, lOld, sc.suffix, sc.sort)
+			after := fr.readLeaf(nst, lNew, sc.suffix, sc.sort)
+			c.assert(fmt.Sprintf("(forall ((%s Int)) (! (=> (and (<= 0 %s) (< %s %s)) (= %s %s)) :pattern (%s)))", iv, iv, iv, s.Len, after, before, after), "append keeps the old elements (lemma)")
+		}
+		if _, ok := constOf(n); !ok && t.K == KSlice {
+			c.fresh++
+			kv := sym(fmt.Sprintf("k!q%d", c.fresh))
+			lSrc, _ := fr.elemLoc(t, kv)
+			lDst, _ := fr.elemLoc(res, add(s.Len, kv))
+			var eqs []Term
+			var pats []Term
+			for _, sc := range fr.v.leafComps(etOld) {
+				src := fr.readLeaf(st, lSrc, sc.suffix, sc.sort)
+				eqs = append(eqs, eq(fr.readLeaf(nst, lDst, sc.suffix, sc.sort), src))
+				pats = append(pats, src)
+			}
+			c.assert(fmt.Sprintf("(forall ((%s Int)) (! (=> (and (<= 0 %s) (< %s %s)) %s) :pattern (%s)))", kv, kv, kv, n, and(eqs...), pats[0]), "append places the new elements (lemma)")
+			// the same fact indexed by the position in the result
+			c.fresh++
+			jv := sym(fmt.Sprintf("j!q%d", c.fresh))
+			lSrc2, _ := fr.elemLoc(t, sub(jv, s.Len))
+			lDst2, _ := fr.elemLoc(res, jv)
+			var eqs2 []Term
+			var pats2 []Term
+			for _, sc := range fr.v.leafComps(etOld) {
+				dst := fr.readLeaf(nst, lDst2, sc.suffix, sc.sort)
+				eqs2 = append(eqs2, eq(dst, fr.readLeaf(st, lSrc2, sc.suffix, sc.sort)))
+				pats2 = append(pats2, dst)
+			}
+			c.assert(fmt.Sprintf("(forall ((%s Int)) (! (=> (and (<= %s %s) (< %s (+ %s %s))) %s) :pattern (%s)))", jv, s.Len, jv, jv, s.Len, n, and(eqs2...), pats2[0]), "append places the new elements (lemma, by result index)")
+		}
+		if nc, ok := constOf(n); ok && nc.IsInt64() && nc.Int64() <= 4 && t.K != KStr {
+			for k := int64(0); k < nc.Int64(); k++ {
+				lSrc, _ := fr.elemLoc(t, num(k))
+				lDst, _ := fr.elemLoc(res, add(s.Len, num(k)))
+				for _, sc := range fr.v.leafComps(etOld) {
+					c.assert(eq(fr.readLeaf(nst, lDst, sc.suffix, sc.sort), fr.readLeaf(st, lSrc, sc.suffix, sc.sort)), "append places the new element (lemma)")
+				}
+			}
+		}
 	}
 	return res, nst
 }
